@@ -570,8 +570,35 @@ func (e *Enc) runRoot() {
 					env.names["result"] = sv
 				}
 			}
+			// ghostdef clauses: redefine the ghost field at this return, then
+			// assume (not prove) its defining clause
+			for _, cl := range c.Ensures {
+				if cl.GhostOwner == nil {
+					continue
+				}
+				ow := e.evalSpec(cl.GhostOwner, env)
+				key := e.ghostKey(ow.GoT, cl.GhostField)
+				if ow.GoT != nil {
+					if pt, ok := ow.GoT.Underlying().(*types.Pointer); ok {
+						key = e.ghostKey(pt.Elem(), cl.GhostField)
+					}
+				}
+				if key == "" {
+					e.fatalf("ghostdef: unknown ghost field %s", cl.GhostField)
+					continue
+				}
+				cur := e.hget(env.heap, key)
+				fresh := e.declare("ghostdef", innerSort(e.keySort[key]))
+				nh := e.hset(env.heap, key, e.define("S_"+key, e.keySort[key], fmt.Sprintf("(store %s %s %s)", cur, ow.T, fresh)))
+				env.heap = nh
+				r.heap = nh
+				e.assume(r.guard, e.evalBool(cl.Expr, env))
+			}
 			var earlier []*Oblig
 			for k, cl := range c.Ensures {
+				if cl.GhostOwner != nil {
+					continue
+				}
 				f := e.evalBool(cl.Expr, env)
 				o := &Oblig{Kind: "post", Base: fmt.Sprintf("post#%d", k+1), Guard: r.guard, Formula: f, Pos: r.pos,
 					Text: "ensures " + cl.Text, Props: cl.Tags, Deps: append([]*Oblig{}, earlier...)}
